@@ -1,5 +1,6 @@
 import LenaModel.Props.C02
 import LenaModel.Props.C03
+import LenaModel.Props.C03X
 import LenaModel.Props.C04
 import LenaModel.Props.C05
 import LenaModel.Props.C16
@@ -13,8 +14,9 @@ independent builders, for different properties:
 | model | what it transcribes | value / state vocabulary |
 |---|---|---|
 | `Lena.C03` | `Split.run` (event trace), `_fill`, `_compute`, `_request`, `Zip._fill` | abstract branches `Ops σ α`, only `LenaStopFill` |
+| `Lena.C03` (`Model/C03X.lean`) | `Split.run` once more, with exceptions of the branches (`SplitX.run`) | `OpsX σ α ε` |
 | `Lena.C04` | the same loops at the level of object identity (tokens, shared heap) | `Ops σ S C` acting on a `Store C` |
-| `Lena.C05` | `Split.run` for fill/compute branches that are `FillComputeSeq` chains, with exceptions | `Chain σ α`, `Strm` |
+| `Lena.C05` | `Split.run`, `_fill`, `_compute` for fill/compute branches that are `FillComputeSeq` chains, with exceptions | `Chain σ α`, `Strm` |
 | `Lena.C16` | the `fill`/`request` schedule `Split.run` performs on a `FillRequest` adapter | `El σ α β`, `runOps` |
 | `Lena.C02` | `Split.run` as a lazy generator | re-uses `C03.blockLoop`/`finalPass` |
 
@@ -23,7 +25,7 @@ proves that they agree with each other, for ALL inputs, under explicit translati
 transcription error in one of them would contradict another one that was validated separately, and
 theorems transfer (corollaries at the end of every section).
 
-Sections: 0. blocks of a flow — 1. C05 ↔ C03 — 2. C16 ↔ C03 — 3. C04 ↔ C03 — 4. C02 ↔ C03. -/
+Sections: 0. blocks of a flow — 1. C05 ↔ C03 and C05 ↔ C03X — 2. C16 ↔ C03 — 3. C04 ↔ C03 — 4. C02 ↔ C03. -/
 
 namespace Lena.Bridge.Split
 
@@ -423,6 +425,12 @@ theorem andThen_vals_some (a b : Strm α) (e : Exc) (h : a.term = some e) : (a.a
   subst h
   rfl
 
+theorem andThen_term_some (a b : Strm α) (e : Exc) (h : a.term = some e) : (a.andThen b).term = some e := by
+  obtain ⟨av, at_⟩ := a
+  simp only at h
+  subst h
+  rfl
+
 theorem andThen_prefix {β : Type} (a b : Strm β) (l₁ l₂ : List β) (ha : a.vals = l₁) (hb : b.vals <+: l₂) :
     (a.andThen b).vals <+: l₁ ++ l₂ := by
   cases ht : a.term with
@@ -514,6 +522,373 @@ example :
     splitRunTagged cs (some 2) [1, 13, 3] = ⟨[], some .valueError⟩ ∧
     tagOuts ((toSplit cs (some 2) true).runTrace [1, 13, 3]) = [(0, 4), (1, 17)] := by
   decide
+
+/-! ### the whole story, exceptions included: C05 ↔ C03X (`Model/C03X.lean`, unconditional)
+
+`Model/C03X.lean` transcribes `Split.run` once more (generic loops `blockLoopG`/`outerLoopG`/`finalPassG`,
+body `stepX`) for branches whose methods may raise: `fill` ends `ok`/`stop`/`raised e`, a generator yields
+some values and then ends or raises.  With the C05 chain plugged in (`activeOpsX`: `fill` of the chain's
+sink with all three outcomes, `compute` = the values and the terminator of `computeAfter`) the two
+transcriptions agree on EVERY run, with no side condition: same tagged values, same exception. -/
+
+/-- the methods of a `FillComputeSeq` chain, exceptions included, as a C03X branch sees them -/
+def activeOpsX : C03.OpsX (Active σ α) α Exc :=
+  { call := fun A => ([], A, none)
+    fill := fun A x =>
+      match (chainSink A.chain.acc A.chain.pre).fill A.st x with
+      | .ok st' => ({ A with st := st' }, .ok)
+      | .stop st' => ({ A with st := st' }, .stop)
+      | .err e => (A, .raised e)
+    compute := fun A =>
+      ((computeAfter A.chain (chainAcc A.chain.pre A.st)).vals, A, (computeAfter A.chain (chainAcc A.chain.pre A.st)).term)
+    request := fun A => ([], A, none)
+    run := fun A _ => ([], A, none) }
+
+def toBranchX (A : Active σ α) : C03.BranchX (Active σ α) α Exc :=
+  { id := A.idx, kind := .fillCompute, ops := activeOpsX, st := A }
+
+def toSplitX (cs : List (Chain σ α)) (bufsize : Option Nat) (copyBuf : Bool) : C03.SplitX (Active σ α) α Exc :=
+  { branches := (initActive 0 cs).map toBranchX, bufsize := bufsize, copyBuf := copyBuf }
+
+/-- the exception that ended `Split.run`, if any -/
+def termExc : C03.Term Exc → Option Exc
+  | .done => none
+  | .raised _ e => some e
+  | .assertFail => none
+  | .isliceError => none
+
+def finalTerm : Option (C03.FinalExc Exc) → Option Exc
+  | none => none
+  | some (.raised _ e) => some e
+  | some .assertFail => none
+
+/-- what C03X sees of the outcome of filling a buffer -/
+def stateFlagX (A : Active σ α) : FillRes (ChainState σ A.chain.pre) → Active σ α × C03.FillRes Exc → Prop
+  | .ok st', r => r = ({ A with st := st' }, .ok)
+  | .stop st', r => r = ({ A with st := st' }, .stop)
+  | .err e, r => r.2 = .raised e
+
+theorem stateFlagX_with (A : Active σ α) (s' : ChainState σ A.chain.pre) (f : FillRes (ChainState σ A.chain.pre))
+    (r : Active σ α × C03.FillRes Exc) : stateFlagX { A with st := s' } f r ↔ stateFlagX A f r := by
+  cases f <;> exact Iff.rfl
+
+theorem tagOuts_fillBufX (i : Nat) (ops : C03.OpsX σ α Exc) :
+    ∀ (buf : List α) (s : σ), tagOuts (C03.fillBufX i ops s buf).1 = []
+  | [], _ => rfl
+  | x :: xs, s => by
+    simp only [C03.fillBufX]
+    cases h : ops.fill s x with
+    | mk s' r =>
+      cases r with
+      | ok => simp only [tagOuts]; exact tagOuts_fillBufX i ops xs s'
+      | stop => rfl
+      | raised e => rfl
+
+theorem fillBufX_active (i : Nat) : ∀ (buf : List α) (A : Active σ α),
+    stateFlagX A (feedList (chainSink A.chain.acc A.chain.pre) A.st buf) (C03.fillBufX i activeOpsX A buf).2
+  | [], A => by simp [feedList, C03.fillBufX, stateFlagX]
+  | x :: xs, A => by
+    simp only [feedList]
+    cases hf : (chainSink A.chain.acc A.chain.pre).fill A.st x with
+    | ok s' =>
+      have hfill : (activeOpsX : C03.OpsX (Active σ α) α Exc).fill A x = ({ A with st := s' }, .ok) := by
+        simp only [activeOpsX, hf]
+      simp only [C03.fillBufX, hfill]
+      exact (stateFlagX_with A s' _ _).mp (fillBufX_active i xs { A with st := s' })
+    | stop s' =>
+      have hfill : (activeOpsX : C03.OpsX (Active σ α) α Exc).fill A x = ({ A with st := s' }, .stop) := by
+        simp only [activeOpsX, hf]
+      simp only [C03.fillBufX, hfill, stateFlagX]
+    | err e =>
+      have hfill : (activeOpsX : C03.OpsX (Active σ α) α Exc).fill A x = (A, .raised e) := by
+        simp only [activeOpsX, hf]
+      simp only [C03.fillBufX, hfill, stateFlagX]
+
+/-- one buffer, all active branches, exceptions included -/
+theorem processBuf_agreesX (buf : List α) : ∀ (act : List (Active σ α)),
+    (processBuf buf act).2.vals = tagOuts (C03.foldG (C03.stepX buf) (act.map toBranchX)).events ∧
+    (processBuf buf act).2.term = (C03.foldG (C03.stepX buf) (act.map toBranchX)).exc.map Prod.snd ∧
+    ((C03.foldG (C03.stepX buf) (act.map toBranchX)).exc = none →
+      (C03.foldG (C03.stepX buf) (act.map toBranchX)).act = (processBuf buf act).1.map toBranchX)
+  | [] => by simp [processBuf, C03.foldG, tagOuts, Strm.nil]
+  | B :: rest => by
+    have hto := tagOuts_fillBufX B.idx (activeOpsX : C03.OpsX (Active σ α) α Exc) buf B
+    have hfb := fillBufX_active B.idx buf B
+    obtain ⟨i1, i2, i3⟩ := processBuf_agreesX buf rest
+    obtain ⟨evs, A', fr, hfx⟩ : ∃ evs A' fr, C03.fillBufX B.idx activeOpsX B buf = (evs, A', fr) := ⟨_, _, _, rfl⟩
+    rw [hfx] at hto hfb
+    simp only at hto hfb
+    have hstep : C03.stepX buf (toBranchX B) =
+        (match fr with
+          | .raised e => (evs, { toBranchX B with st := A' }, C03.Res.abort (B.idx, e))
+          | .stop =>
+            (evs ++ C03.Ev.compute B.idx :: C03.outs B.idx (activeOpsX.compute A').1,
+              { toBranchX B with st := (activeOpsX.compute A').2.1 },
+              C03.genRes (activeOpsX.compute A').2.2 B.idx .drop)
+          | .ok => (evs, { toBranchX B with st := A' }, .stay)) := by
+      simp only [C03.stepX, toBranchX, hfx]
+      cases fr <;> rfl
+    cases hf : feedList (chainSink B.chain.acc B.chain.pre) B.st buf with
+    | err e =>
+      rw [hf] at hfb
+      simp only [stateFlagX] at hfb
+      subst hfb
+      rw [processBuf, hf]
+      simp only [List.map_cons, C03.foldG, hstep, hto, Strm.fail, Option.map_some]
+      exact ⟨trivial, trivial, fun h => by cases h⟩
+    | ok st' =>
+      rw [hf] at hfb
+      simp only [stateFlagX, Prod.mk.injEq] at hfb
+      obtain ⟨rfl, rfl⟩ := hfb
+      have hp : processBuf buf (B :: rest) = ({ B with st := st' } :: (processBuf buf rest).1, (processBuf buf rest).2) := by
+        rw [processBuf, hf]
+      rw [hp]
+      simp only [List.map_cons, C03.foldG, hstep, tagOuts_append, hto, List.nil_append, i1, i2, true_and]
+      intro h
+      rw [i3 h]
+      rfl
+    | stop st' =>
+      rw [hf] at hfb
+      simp only [stateFlagX, Prod.mk.injEq] at hfb
+      obtain ⟨rfl, rfl⟩ := hfb
+      have hp : processBuf buf (B :: rest) = ((processBuf buf rest).1,
+          (tag B.idx (computeAfter B.chain (chainAcc B.chain.pre st'))).andThen (processBuf buf rest).2) := by
+        rw [processBuf, hf]
+      rw [hp]
+      simp only [List.map_cons, C03.foldG, hstep]
+      cases hc : (computeAfter B.chain (chainAcc B.chain.pre st')).term with
+      | some e =>
+        have hc' : (activeOpsX.compute ({ B with st := st' } : Active σ α)).2.2 = some e := hc
+        have ht : (tag B.idx (computeAfter B.chain (chainAcc B.chain.pre st'))).term = some e := hc
+        simp only [C03.genRes, hc', tagOuts_append, hto, List.nil_append, tagOuts, tagOuts_outs, Option.map_some]
+        rw [andThen_vals_some _ _ e ht, andThen_term_some _ _ e ht]
+        exact ⟨rfl, rfl, fun h => by cases h⟩
+      | none =>
+        have hc' : (activeOpsX.compute ({ B with st := st' } : Active σ α)).2.2 = none := hc
+        have ht : (tag B.idx (computeAfter B.chain (chainAcc B.chain.pre st'))).term = none := hc
+        simp only [C03.genRes, hc', tagOuts_append, hto, List.nil_append, tagOuts, tagOuts_outs]
+        rw [andThen_vals _ _ ht, andThen_term _ _ ht, i1, i2]
+        exact ⟨rfl, rfl, i3⟩
+
+/-- the final pass, exceptions included -/
+theorem finalCompute_agreesX (fwe : Bool) : ∀ (act : List (Active σ α)),
+    (finalCompute act).vals = tagOuts (C03.finalPassG (C03.finalX fwe) (act.map toBranchX)).1 ∧
+    (finalCompute act).term = finalTerm (C03.finalPassG (C03.finalX fwe) (act.map toBranchX)).2.2
+  | [] => ⟨rfl, rfl⟩
+  | B :: rest => by
+    obtain ⟨i1, i2⟩ := finalCompute_agreesX fwe rest
+    have hfin : C03.finalX fwe (toBranchX B) =
+        (C03.Ev.compute B.idx :: C03.outs B.idx (computeAfter B.chain (chainAcc B.chain.pre B.st)).vals,
+          toBranchX B, (computeAfter B.chain (chainAcc B.chain.pre B.st)).term.map (C03.FinalExc.raised B.idx)) := rfl
+    simp only [finalCompute, List.map_cons, C03.finalPassG, hfin]
+    cases hc : (computeAfter B.chain (chainAcc B.chain.pre B.st)).term with
+    | some e =>
+      have ht : (tag B.idx (computeAfter B.chain (chainAcc B.chain.pre B.st))).term = some e := hc
+      simp only [Option.map_some, tagOuts, tagOuts_outs, finalTerm]
+      rw [andThen_vals_some _ _ e ht, andThen_term_some _ _ e ht]
+      exact ⟨rfl, rfl⟩
+    | none =>
+      have ht : (tag B.idx (computeAfter B.chain (chainAcc B.chain.pre B.st))).term = none := hc
+      simp only [Option.map_none, tagOuts, tagOuts_append, tagOuts_outs]
+      rw [andThen_vals _ _ ht, andThen_term _ _ ht, i1, i2]
+      exact ⟨rfl, rfl⟩
+
+/-- buffer after buffer, then the final pass; the run ends at the first exception -/
+theorem splitLoop_agreesX (fwe : Bool) : ∀ (bufs : List (List α)) (act : List (Active σ α))
+    (dropped : List (C03.BranchX (Active σ α) α Exc)),
+    (match (C03.passesG C03.stepX bufs (act.map toBranchX) dropped).exc with
+      | some ie =>
+        (splitLoop bufs act).vals = tagOuts (C03.passesG C03.stepX bufs (act.map toBranchX) dropped).events ∧
+        (splitLoop bufs act).term = some ie.2
+      | none =>
+        (splitLoop bufs act).vals =
+          tagOuts ((C03.passesG C03.stepX bufs (act.map toBranchX) dropped).events ++
+            (C03.finalPassG (C03.finalX fwe) (C03.passesG C03.stepX bufs (act.map toBranchX) dropped).act).1) ∧
+        (splitLoop bufs act).term =
+          finalTerm (C03.finalPassG (C03.finalX fwe) (C03.passesG C03.stepX bufs (act.map toBranchX) dropped).act).2.2)
+  | [], act, dropped => by
+    simp only [C03.passesG, splitLoop, List.nil_append]
+    exact finalCompute_agreesX fwe act
+  | buf :: bufs, act, dropped => by
+    obtain ⟨p1, p2, p3⟩ := processBuf_agreesX buf act
+    simp only [C03.passesG, splitLoop]
+    cases hx : (C03.foldG (C03.stepX buf) (act.map toBranchX)).exc with
+    | some ie =>
+      rw [hx] at p2
+      simp only [Option.map_some] at p2
+      simp only
+      rw [andThen_vals_some _ _ _ p2, andThen_term_some _ _ _ p2, p1]
+      exact ⟨rfl, rfl⟩
+    | none =>
+      rw [hx] at p2
+      simp only [Option.map_none] at p2
+      have ih := splitLoop_agreesX fwe bufs (processBuf buf act).1
+        (dropped ++ (C03.foldG (C03.stepX buf) (act.map toBranchX)).dropped)
+      rw [← p3 hx] at ih
+      simp only
+      cases hq : (C03.passesG C03.stepX bufs (C03.foldG (C03.stepX buf) (act.map toBranchX)).act
+          (dropped ++ (C03.foldG (C03.stepX buf) (act.map toBranchX)).dropped)).exc with
+      | some ie =>
+        rw [hq] at ih
+        simp only at ih ⊢
+        rw [andThen_vals _ _ p2, andThen_term _ _ p2, p1, ih.1, ih.2, tagOuts_append]
+        exact ⟨rfl, rfl⟩
+      | none =>
+        rw [hq] at ih
+        simp only at ih ⊢
+        rw [andThen_vals _ _ p2, andThen_term _ _ p2, p1, ih.1, ih.2]
+        simp only [tagOuts_append, List.append_assoc]
+        exact ⟨by first | trivial | rfl, by first | trivial | rfl⟩
+
+/-- **C05 ↔ C03X, `Split.run`, EVERY run, no side condition.**  For every list of chains, every `bufsize`
+(`None` or `≥ 1`), both values of `copy_buf` and every flow: the tagged values AND the exception (if any) that the
+C05 transcription predicts are those of the C03X transcription on the translated `Split`. -/
+theorem c05_split_agreesX (cs : List (Chain σ α)) (bufsize : Option Nat) (hb : bufsize ≠ some 0) (copyBuf : Bool)
+    (xs : List α) :
+    (splitRunTagged cs bufsize xs).vals = tagOuts ((toSplitX cs bufsize copyBuf).run xs).trace ∧
+    (splitRunTagged cs bufsize xs).term = termExc ((toSplitX cs bufsize copyBuf).run xs).term := by
+  obtain ⟨o1, o2, _, o4, o5⟩ := C03.outerLoopG_eq_passesG copyBuf bufsize hb
+    (C03.stepX (σ := Active σ α) (α := α) (ε := Exc)) (xs.length + 1) xs ((initActive 0 cs).map toBranchX) [] [] true
+    (by omega)
+  have key := splitLoop_agreesX (C03.blocks bufsize xs).isEmpty (C03.blocks bufsize xs) (initActive 0 cs)
+    ([] : List (C03.BranchX (Active σ α) α Exc))
+  unfold splitRunTagged
+  rw [chunks_eq_blocks]
+  simp only [C03.SplitX.run, toSplitX, Bool.false_eq_true, if_false]
+  rw [o4]
+  cases hx : (C03.passesG C03.stepX (C03.blocks bufsize xs) ((initActive 0 cs).map toBranchX)
+      ([] : List (C03.BranchX (Active σ α) α Exc))).exc with
+  | some ie =>
+    rw [hx] at key
+    obtain ⟨i, e⟩ := ie
+    simp only at key ⊢
+    rw [o1, List.nil_append]
+    exact ⟨key.1, key.2⟩
+  | none =>
+    rw [hx] at key
+    have hfwe := o5 hx
+    rw [Bool.true_and] at hfwe
+    simp only at key ⊢
+    rw [o1, o2, hfwe, List.nil_append, key.1, key.2]
+    refine ⟨rfl, ?_⟩
+    cases (C03.finalPassG (C03.finalX (C03.blocks bufsize xs).isEmpty)
+      (C03.passesG C03.stepX (C03.blocks bufsize xs) ((initActive 0 cs).map toBranchX)
+        ([] : List (C03.BranchX (Active σ α) α Exc))).act).2.2 with
+    | none => rfl
+    | some fe => cases fe <;> rfl
+
+/-- the exception example again: both transcriptions predict no value and `ValueError` -/
+example :
+    let cs : List (Chain Int Int) :=
+      [{ pre := [.call (fun v => if v = 13 then .error .valueError else .ok v)], acc := exSum, post := [] },
+       { pre := [], acc := exSum, post := [] }]
+    tagOuts ((toSplitX cs (some 2) true).run [1, 13, 3]).trace = [] ∧
+    termExc ((toSplitX cs (some 2) true).run [1, 13, 3]).term = some .valueError := by
+  decide
+
+/-! ### `Split._fill` / `Split._compute` over `FillComputeSeq` branches: `C05.splitFill`, `C05.splitFillRun`
+
+Python: split.py:257-268.  Lean: `C05.splitFill` (outcome `ok`/`stop`/`err` of the whole `_fill`),
+`C05.splitFillRun` (fill a flow until `LenaStopFill`, then `_compute`) against `C03.splitFill`,
+`C03.splitFillAll`, `C03.splitCompute`.  Common domain as for `run`: no exception other than `LenaStopFill`. -/
+
+/-- what C03 sees of the outcome of `Split._fill`: the branch objects and the flag; `none` for an exception -/
+def brsFlag : FillRes (List (Active σ α)) → Option (List (C03.Branch (Active σ α) α) × Bool)
+  | .ok act => some (act.map toBranch, false)
+  | .stop act => some (act.map toBranch, true)
+  | .err _ => none
+
+/-- **C05 ↔ C03, `Split._fill(val)`** -/
+theorem c05_splitFill_agrees (v : α) : ∀ (act : List (Active σ α)) (r : List (C03.Branch (Active σ α) α) × Bool),
+    brsFlag (C05.splitFill act v) = some r → C03.splitFill v (act.map toBranch) = r
+  | [], r, h => by
+    simp only [C05.splitFill, brsFlag, Option.some.injEq] at h
+    subst h; rfl
+  | B :: rest, r, h => by
+    simp only [C05.splitFill] at h
+    simp only [List.map_cons, C03.splitFill]
+    have hbr : (toBranch B).ops.fill (toBranch B).st v = (activeOps : C03.Ops (Active σ α) α).fill B v := rfl
+    rw [hbr]
+    cases hf : (chainSink B.chain.acc B.chain.pre).fill B.st v with
+    | err e => rw [hf] at h; simp [brsFlag] at h
+    | stop st' =>
+      rw [hf] at h
+      simp only [brsFlag, Option.some.injEq] at h
+      subst h
+      rw [activeOps_fill B v ({ B with st := st' }, true) (by rw [hf]; rfl)]
+      rfl
+    | ok st' =>
+      rw [hf] at h
+      rw [activeOps_fill B v ({ B with st := st' }, false) (by rw [hf]; rfl)]
+      simp only at h ⊢
+      cases hr : C05.splitFill rest v with
+      | err e => rw [hr] at h; simp [FillRes.map, brsFlag] at h
+      | ok act' =>
+        rw [hr] at h
+        simp only [FillRes.map, brsFlag, Option.some.injEq] at h
+        subst h
+        rw [c05_splitFill_agrees v rest (act'.map toBranch, false) (by rw [hr]; rfl)]
+        rfl
+      | stop act' =>
+        rw [hr] at h
+        simp only [FillRes.map, brsFlag, Option.some.injEq] at h
+        subst h
+        rw [c05_splitFill_agrees v rest (act'.map toBranch, true) (by rw [hr]; rfl)]
+        rfl
+
+/-- **C05 ↔ C03, a caller that fills a flow into the `Split`** (`for v in xs: split.fill(v)` until `LenaStopFill`) -/
+theorem c05_splitFillAll_agrees : ∀ (xs : List α) (act : List (Active σ α))
+    (r : List (C03.Branch (Active σ α) α) × Bool),
+    brsFlag (feedList splitSink act xs) = some r → C03.splitFillAll (act.map toBranch) xs = r
+  | [], act, r, h => by
+    simp only [feedList, brsFlag, Option.some.injEq] at h
+    subst h; rfl
+  | x :: xs, act, r, h => by
+    simp only [feedList, splitSink] at h
+    simp only [C03.splitFillAll]
+    cases hf : C05.splitFill act x with
+    | err e => rw [hf] at h; simp [brsFlag] at h
+    | stop act' =>
+      rw [hf] at h
+      rw [c05_splitFill_agrees x act (act'.map toBranch, true) (by rw [hf]; rfl)]
+      simpa [brsFlag] using h
+    | ok act' =>
+      rw [hf] at h
+      rw [c05_splitFill_agrees x act (act'.map toBranch, false) (by rw [hf]; rfl)]
+      exact c05_splitFillAll_agrees xs act' r h
+
+/-- `Split._compute()`: `C05.finalCompute` (tagged, with exceptions) and `C03.splitCompute` -/
+theorem finalCompute_splitCompute : ∀ (act : List (Active σ α)), (finalCompute act).term = none →
+    (finalCompute act).vals.map Prod.snd = (C03.splitCompute (act.map toBranch)).1
+  | [], _ => rfl
+  | B :: rest, h => by
+    simp only [finalCompute] at h ⊢
+    obtain ⟨hc, hr⟩ := andThen_term_none _ _ h
+    rw [andThen_vals _ _ hc, List.map_append, finalCompute_splitCompute rest hr]
+    simp only [List.map_cons, C03.splitCompute, toBranch, activeOps, tag, Strm.map, List.map_map]
+    congr 1
+    simp [Function.comp_def]
+
+/-- **C05 ↔ C03, `Split` driven by `fill` + `compute`**: `C05.splitFillRun` is `C03.splitFillAll` followed by
+`C03.splitCompute`, whenever C05 predicts no exception -/
+theorem c05_splitFillRun_agrees (cs : List (Chain σ α)) (xs : List α) (h : (splitFillRun cs xs).term = none) :
+    (splitFillRun cs xs).vals.map Prod.snd =
+      (C03.splitCompute (C03.splitFillAll ((initActive 0 cs).map toBranch) xs).1).1 := by
+  unfold splitFillRun at h ⊢
+  cases hf : feedList splitSink (initActive 0 cs) xs with
+  | err e => rw [hf] at h; simp [Strm.fail] at h
+  | ok act =>
+    rw [hf] at h
+    rw [c05_splitFillAll_agrees xs (initActive 0 cs) (act.map toBranch, false) (by rw [hf]; rfl)]
+    exact finalCompute_splitCompute act h
+  | stop act =>
+    rw [hf] at h
+    rw [c05_splitFillAll_agrees xs (initActive 0 cs) (act.map toBranch, true) (by rw [hf]; rfl)]
+    exact finalCompute_splitCompute act h
+
+example : (splitFillRun exSibling [1, 2, 3, 4, 5, 6, 7]).term = none ∧
+    (C03.splitCompute (C03.splitFillAll ((initActive 0 exSibling).map toBranch) [1, 2, 3, 4, 5, 6, 7]).1).1 = [3, 6] :=
+  ⟨by decide, by rw [← c05_splitFillRun_agrees exSibling _ (by decide)]; decide⟩
 
 /-! ### non-vacuity and transfer -/
 
@@ -1025,6 +1400,24 @@ theorem c04_outputs_erase (E : Erasure σ₄ S C σ₃ α) (s : C04.Split σ₄ 
     (hs : ∀ b ∈ s.branches, E.Sound b.ops) (st0 : Store C) (flow : List (Item S)) :
     (C04.outputs (s.runTrace st0 flow).1).map E.item = C03.outputs ((E.split s).runTrace (E.buf flow)) := by
   rw [← c04_run_erases E s hv hs, E.outputs_trace]
+
+theorem emptyRun_eq {β : Type} : ∀ (l : List β), C03.emptyRun l = l
+  | [] => rfl
+  | x :: r => by simp [C03.emptyRun, emptyRun_eq r]
+
+/-- **C04 ↔ C03, what `split.run(flow)` yields** (`C04.Split.run` / `C03.Split.run`, the `_empty_run` of a
+`Split([])` included) -/
+theorem c04_splitRun_erases (E : Erasure σ₄ S C σ₃ α) (s : C04.Split σ₄ S C) (hv : s.bufsize ≠ some 0)
+    (hs : ∀ b ∈ s.branches, E.Sound b.ops) (st0 : Store C) (flow : List (Item S)) :
+    (s.run st0 flow).1.map E.item = (E.split s).run (E.buf flow) := by
+  unfold C04.Split.run C03.Split.run
+  by_cases he : s.branches.isEmpty = true
+  · have he' : (E.split s).branches.isEmpty = true := by simpa [Erasure.split] using he
+    simp only [he, he', if_true, emptyRun_eq]
+    rfl
+  · have he' : ¬ (E.split s).branches.isEmpty = true := by simpa [Erasure.split] using he
+    simp only [he, he']
+    exact c04_outputs_erase E s hv hs st0 flow
 
 /-! ### `Split._fill`, `Zip._fill`, `_compute`, `_request` -/
 
